@@ -307,6 +307,8 @@ def _first_call(pt, case, n_iters):
 def _later_call(pt, case, spec, n_iters):
     kw = _common_kw(case)
     kw["num_iters"] = int(n_iters)
+    if "autograd" in spec:  # the gradient route may change from call to call
+        kw["autograd"] = bool(spec["autograd"])
     if spec.get("constraints"):
         kw["constraints"] = copy.deepcopy(spec["constraints"])
     if spec.get("sched"):
@@ -318,7 +320,7 @@ def _later_call(pt, case, spec, n_iters):
     pt.reconstruct(**kw)
 
 
-def _save_load(ctx, case, who, src, store, load_device, dataless=False):
+def _save_load(ctx, case, who, src, store, load_device, dataless=False, align=True):
     """save(src) -> from_file; checks that save left src as it was and that the loaded object reports
     what src reported.  Returns the loaded object.
 
@@ -360,7 +362,8 @@ def _save_load(ctx, case, who, src, store, load_device, dataless=False):
             new = Q.Ptychography.from_file(path, **kw)
     with ctx.sut(case, "%s: reading the state of the reloaded object" % who):
         got = _report(new)
-    _set_rng_state(new, rng_state)
+    if align:
+        _set_rng_state(new, rng_state)
     if dataless:
         got["constraints"].pop("dataset", None)
         before = dict(before, constraints={k: v for k, v in before["constraints"].items() if k != "dataset"})
@@ -378,18 +381,24 @@ def _set_rng_state(pt, state):
     state is not restored by a reload (and clone() may draw from its source's generator): the property
     excludes that order.  The harness therefore re-installs the state the source had (public `rng`
     property) so that every branch sums in the same order as the uninterrupted run and float32 rounding --
-    and with it every noise-decided Adam step -- is identical instead of merely close."""
+    and with it every noise-decided Adam step -- is identical instead of merely close.
+
+    Cases with align_rng == False skip this: there every branch keeps the generator the library gives it
+    (fresh and unseeded after a reload), which is the situation the property describes -- full-batch results
+    must not depend on the order beyond float rounding.  Only drawn when every optimiser is SGD (rounding
+    noise then stays at the 1e-7 level; Adam turns it into lr-sized steps, see ADAM_REL_FRESH)."""
     pt.rng.bit_generator.state = copy.deepcopy(state)
 
 
-def _clone(ctx, case, who, src):
+def _clone(ctx, case, who, src, align=True):
     before = _report(src)
     rng_state = _rng_state(src)
     with ctx.sut(case, "%s: clone()" % who):
         new = src.clone()
-    if new is not src:
-        _set_rng_state(new, rng_state)
-    _set_rng_state(src, rng_state)
+    if align:
+        if new is not src:
+            _set_rng_state(new, rng_state)
+        _set_rng_state(src, rng_state)
     if new is src:
         _fail(case, "%s: clone() returned the object itself" % who)
     with ctx.sut(case, "%s: reading the state of the clone / the cloned object" % who):
@@ -460,6 +469,27 @@ def _check_resume(ctx, case):
     # an optimiser first attached in a call after an interruption, with iterations still to run
     if any(sum(segs[ci - 1 :]) > 0 for ci, _k in attached):
         nontrivial = True
+    align = bool(case.get("align_rng", True))
+    calls_autograd = [bool(case["autograd"])] + [bool(sp.get("autograd", case["autograd"])) for sp in later]
+    stateful_ds = "dataset" in plan and _stateful({"dataset": plan["dataset"]})
+    route = []
+    for i in range(1, len(calls_autograd)):
+        if calls_autograd[i] != calls_autograd[i - 1] and sum(segs[i:]) > 0:
+            route.append("autograd_%s_to_%s" % (calls_autograd[i - 1], calls_autograd[i]))
+    on_before = bool(((case.get("constraints") or {}).get("dataset") or {}).get("descan_shifts_constant"))
+    for i, sp in enumerate(later):
+        v = ((sp.get("constraints") or {}).get("dataset") or {}).get("descan_shifts_constant")
+        if v is not None:
+            if bool(v) != on_before and sum(segs[i + 1 :]) > 0 and "dataset" in plan:
+                route.append("descan_shifts_constant_switched_%s" % ("on" if v else "off"))
+            on_before = bool(v)
+    # the route by which some optimised parameter receives its gradient changes between two calls, while a
+    # stateful optimiser owns dataset parameters (analytic gradients fill object and probe only)
+    if route and stateful_ds and sum(segs[:1]) > 0:
+        nontrivial = True
+    # continuation under the library's own re-seeding of the batch order, at least 2 iterations
+    if not align and k > 0 and n - k >= 2:
+        nontrivial = True
     lineage = bool(case.get("dataless_first"))
     # a data-less checkpoint earlier, a with-data checkpoint / clone later, a learned dataset in between
     if lineage and len(segs) == 3 and min(segs) > 0 and "dataset" in plan:
@@ -475,7 +505,14 @@ def _check_resume(ctx, case):
         classes.append("later_call_attaches_%s_optimiser" % kk)
     if lineage:
         classes.append("lineage:dataless_checkpoint_then_full_checkpoint")
-    if not case["autograd"]:
+    for r_ in route:
+        classes.append("route:" + r_ + ("+stateful_dataset_optimiser" if stateful_ds else ""))
+    if not align:
+        classes.append("rng_not_aligned")
+        tvd = [((c_ or {}).get("dataset") or {}).get("descan_tv_weight", 0) for c_ in [case.get("constraints")] + [sp.get("constraints") for sp in later]]
+        if any(tvd) and "dataset" in plan:
+            classes.append("rng_not_aligned+descan_tv")
+    if not all(calls_autograd):
         classes.append("analytic_gradients")
     if case["loss_type"] != "l2_amplitude":
         classes.append("loss:" + case["loss_type"])
@@ -495,7 +532,7 @@ def _check_resume(ctx, case):
         P = build.build(case)
         init_obj = np.array(A.obj)
         view = {
-            "gauge": case["obj_type"] != "potential" and bool(case["autograd"]),
+            "gauge": case["obj_type"] != "potential" and any(calls_autograd),
             "W": _illumination(A),
             "k0": k,
             "fresh_adam": k == 0 or any(sp.get("opt") for sp in later),
@@ -536,8 +573,8 @@ def _check_resume(ctx, case):
     except core.Violation as v:
         raise core.HarnessError("two identical uninterrupted runs disagree: %s" % v.msg)
 
-    B = _save_load(ctx, case, "boundary 1", P, case["store"], case.get("load_device"), dataless=lineage)
-    C = _clone(ctx, case, "boundary 1", P)
+    B = _save_load(ctx, case, "boundary 1", P, case["store"], case.get("load_device"), dataless=lineage, align=align)
+    C = _clone(ctx, case, "boundary 1", P, align=align)
     D = P
     E = None  # lineage cases: a clone taken at a later boundary from the object that was loaded data-less
     if diverges:
@@ -557,9 +594,9 @@ def _check_resume(ctx, case):
         if i + 1 < len(segs):
             store2 = "dir" if case["store"] == "zip" else "zip"
             if lineage:
-                E = _clone(ctx, case, "boundary %d (object loaded from a data-less checkpoint)" % (i + 1), B)
-            B = _save_load(ctx, case, "boundary %d (second-generation)" % (i + 1), B, store2, case.get("load_device"))
-            C = _clone(ctx, case, "boundary %d (second-generation)" % (i + 1), C)
+                E = _clone(ctx, case, "boundary %d (object loaded from a data-less checkpoint)" % (i + 1), B, align=align)
+            B = _save_load(ctx, case, "boundary %d (second-generation)" % (i + 1), B, store2, case.get("load_device"), align=align)
+            C = _clone(ctx, case, "boundary %d (second-generation)" % (i + 1), C, align=align)
     del A, B, C, D, E, P
 
 
@@ -614,6 +651,11 @@ def _check_skip(ctx, case):
         classes.append("skip:caller_reuses_list")
     if any(s.startswith("type:") for e in eff for s in e):
         classes.append("skip:by_type")
+    for sv, e in zip(saves, eff):
+        if e:
+            f_ = sv.get("form", "list")
+            f_ = ("bare_" + ("type" if e[0].startswith("type:") else "str")) if (f_ == "str" and len(e) == 1) else ("list" if f_ == "str" else f_)
+            classes.append("skip:form_" + f_)
     ctx.record(case, nontrivial, classes)
 
     try:
@@ -646,11 +688,24 @@ def _check_skip(ctx, case):
         with ctx.sut(case, "%s: reading the state of the saved object afterwards" % who):
             after = _report(P)
         _cmp_report(case, "%s: object after its own save()" % who, after, {k: v for k, v in ref.items() if k != "snapshots"}, exact=True)
+        L = None
+        if names or i in judged:
+            with ctx.sut(case, "%s: Ptychography.from_file" % who):
+                L = Q.Ptychography.from_file(path)
+        if names:
+            # what the caller named in skip= (by attribute name or by type, in whatever documented form:
+            # str | type | Sequence[str | type]) is not in the file, hence not on the reloaded object
+            have = vars(L)
+            present = [s_ for s_ in names if not s_.startswith("type:") and s_ in have]
+            for s_ in names:
+                if s_.startswith("type:"):
+                    t_ = {"type:list": list, "type:dict": dict}[s_]
+                    present += ["%s (a %s)" % (a_, t_.__name__) for a_, v_ in have.items() if type(v_) is t_]
+            if present:
+                _fail(case, "%s with skip given as %s: reloaded object still has %s" % (who, type(arg).__name__, sorted(present)))
         if i in judged:
             skipped = set(names)
             items = [k for k in ("num_iters", "iter_losses", "iter_lrs") if not (NEEDS[k] & skipped)] + ["constraints", "obj", "probe"]
-            with ctx.sut(case, "%s: Ptychography.from_file" % who):
-                L = Q.Ptychography.from_file(path)
             with ctx.sut(case, "%s: reading %s of the reloaded object (not skipped in this call)" % (who, items)):
                 got = _report(L, items)
                 snaps = None
@@ -664,7 +719,7 @@ def _check_skip(ctx, case):
                     _later_call(L, case, {}, 1)
                 if int(L.num_iters) != ref["num_iters"] + 1:
                     _fail(case, "%s: reloaded object reports %d iterations after one more, expected %d" % (who, int(L.num_iters), ref["num_iters"] + 1))
-            del L
+        del L
         _rm(path)
     del P
 
@@ -844,7 +899,7 @@ def _constraints(draw, c):
 
 
 @st.composite
-def _problem(draw, force_ds=False):
+def _problem(draw, force_ds=False, family=None):
     with_ds = force_ds or draw(st.integers(0, 2)) == 2
     # (ProbeParametric is not drawn: its aberration-coefficient gradients are float32 sums with heavy
     # cancellation, 1e-3 relative noise between two summation orders, amplified by Adam: continuation after
@@ -868,7 +923,7 @@ def _problem(draw, force_ds=False):
         "semiangle": draw(st.sampled_from([20.0, 15.0, 25.0])),
         "defocus": draw(st.sampled_from([50.0, 0.0, 150.0])),
         "learn_tilt": probe_init != "parametric" and _rare(draw, 6),
-        "opt": {k: draw(_optimizer(k, parametric=probe_init == "parametric")) for k in keys},
+        "opt": {k: draw(_optimizer(k, family=family, parametric=probe_init == "parametric")) for k in keys},
         "autograd": True,
         "loss_type": "l2_amplitude",
     }
@@ -886,13 +941,23 @@ def resume_cases(draw, mode="mixed"):
     'lineage': three segments, the first interruption is a data-less checkpoint (save_raw_data=False +
     from_file(dset=...)), the second a with-data checkpoint / clone, and the dataset is learned in between."""
     lineage = mode == "lineage"
-    c = draw(_problem(force_ds=lineage or (mode == "attach" and draw(st.booleans()))))
-    n = draw(st.integers(3 if lineage else 2, 6))
+    order = mode == "order"
+    # 'route': the gradient route of the dataset parameters changes between two calls (autograd <-> analytic
+    #          gradients, or descan_shifts_constant switched) while a stateful optimiser owns them;
+    # 'order': every optimiser is SGD, the dataset is learned, TV weights are likely, and the harness does
+    #          NOT align the generators (align_rng False): branches run with the library's own re-seeding.
+    route_mode = mode == "route" or (mode == "mixed" and _rare(draw, 8))
+    c = draw(_problem(force_ds=lineage or order or mode == "route" or (mode == "attach" and draw(st.booleans())), family="sgd" if order else None))
+    n = draw(st.integers(3 if (lineage or order) else 2, 6))
     nb = 2 if (lineage or (n >= 3 and _rare(draw, 5))) else 1
     if nb == 1:
         k = draw(st.one_of(st.integers(1, n - 1), st.integers(0, n)))
-        if mode == "attach":
-            k = min(k, n - 1)  # iterations must remain after the attaching call
+        if mode in ("attach", "route"):
+            k = min(k, n - 1)  # iterations must remain after the later call
+        if order:
+            k = min(max(k, 1), n - 2)  # >= 2 iterations under the re-seeded order
+        if mode == "route":
+            k = max(k, 1)
         segs = [k, n - k]
     else:
         k1 = draw(st.integers(1, n - 2))
@@ -992,8 +1057,36 @@ def resume_cases(draw, mode="mixed"):
     c["segments"] = segs
     if lineage:
         c["dataless_first"] = True
-    if c["M"] == 1 and "dataset" not in keys and c["probe_init"] != "parametric" and not c["learn_tilt"] and _rare(draw, 6):
-        c["autograd"] = False  # analytic gradients (pixelated single-mode models only)
+    if order:
+        c["align_rng"] = False
+        c["obj_init"] = c["obj_init"] if c["obj_init"] != "uniform" else "array"
+        if draw(st.booleans()):
+            # descan TV is only evaluated with a learned dataset; SGD keeps its kink harmless (see _tv_ok)
+            w = draw(st.sampled_from([1e-2, 1e-3, 0.1]))
+            tgt = c["constraints"] if draw(st.booleans()) else later[0].setdefault("constraints", {})
+            tgt.setdefault("dataset", {})["descan_tv_weight"] = w
+    elif mode == "mixed" and all(_family(v) == "sgd" for v in plan.values()) and segs[0] > 0 and draw(st.booleans()):
+        c["align_rng"] = False
+    if route_mode and "dataset" in plan and not lineage:
+        ds_first = c["opt"].get("dataset") or next(sp["opt"]["dataset"] for sp in later if "dataset" in (sp.get("opt") or {}))
+        if mode == "route" and not _stateful({"dataset": ds_first}):
+            ds_first["momentum"] = 0.9  # a stateful optimiser owns the dataset parameters
+            if isinstance(ds_first["lr"], int):
+                ds_first["lr"] = 0.05
+        j = draw(st.integers(1, len(segs) - 1))
+        while j > 1 and sum(segs[j:]) == 0:
+            j -= 1
+        how = draw(st.sampled_from(["analytic", "analytic", "constant_on", "analytic_then_autograd"]))
+        if how == "constant_on":
+            c["constraints"].setdefault("dataset", {})["descan_shifts_constant"] = False
+            later[j - 1].setdefault("constraints", {}).setdefault("dataset", {})["descan_shifts_constant"] = True
+        else:
+            for jj in range(j, len(segs)):
+                later[jj - 1]["autograd"] = False
+            if how == "analytic_then_autograd" and j < len(segs) - 1:
+                later[-1]["autograd"] = True
+    elif c["M"] == 1 and "dataset" not in keys and c["probe_init"] != "parametric" and not c["learn_tilt"] and _rare(draw, 6):
+        c["autograd"] = False  # analytic gradients throughout
     elif _rare(draw, 6):
         # (the poisson loss is not drawn: log(pred + 1e-6) where the predicted intensity is ~0 turns float32
         # FFT rounding into O(1e-4) loss noise between two summation orders; l1 has a kink at pred == target)
@@ -1068,7 +1161,9 @@ def search(ctx):
     shrink = ctx.thorough
     # ~0.8 s per case: quick = 4 workers x 65 cases, thorough = 16 workers x 580 cases
     core.run_given(ctx, "skip", skip_cases(), lambda c: check(ctx, c), ctx.n(10, 80), shrink=shrink)
-    core.run_given(ctx, "resume", resume_cases(), lambda c: check(ctx, c), ctx.n(42, 400), shrink=shrink)
+    core.run_given(ctx, "resume", resume_cases(), lambda c: check(ctx, c), ctx.n(32, 320), shrink=shrink)
+    core.run_given(ctx, "route", resume_cases("route"), lambda c: check(ctx, c), ctx.n(8, 60), shrink=shrink)
+    core.run_given(ctx, "order", resume_cases("order"), lambda c: check(ctx, c), ctx.n(8, 60), shrink=shrink)
     core.run_given(ctx, "attach", resume_cases("attach"), lambda c: check(ctx, c), ctx.n(8, 60), shrink=shrink)
     core.run_given(ctx, "lineage", resume_cases("lineage"), lambda c: check(ctx, c), ctx.n(8, 60), shrink=shrink)
     for k, v in STATS.items():
